@@ -812,6 +812,21 @@ def center_case(rng, size, dims=3):
     return c, mode
 
 
+def centre_form(rng, cen, size):
+    """The centre of a curved shape as a caller may hand it over: (centre as float array, constructor argument or None
+    for "leave it out", label).  Mostly a float array; a list of Python ints when whole numbers are a fair position for a
+    shape of that size; sometimes not at all (the documented default, the origin)."""
+    u = rng.random()
+    if u < 0.1:
+        return np.zeros(3), None, "default"
+    if u < 0.28 and size >= 0.3:
+        c = np.rint(cen)
+        return c, [int(x) for x in c], "python-ints"
+    if u < 0.36:
+        return np.array(cen, float), tuple(float(x) for x in cen), "tuple"
+    return cen, cen, "float-array"
+
+
 # ---------------------------------------------------------------------------
 # exactly representable extreme solids (dyadic coordinates): truth by integer arithmetic
 # ---------------------------------------------------------------------------
